@@ -276,7 +276,7 @@ theorem sg_top_split {s : St} (hi : SInv s) {nb : Nat} (hnb16 : nb % 16 = 0) (hn
     · exact Or.inr (Or.inr h)
     · exact Or.inl ⟨by rw [h]; exact hfm, fun hx => by rw [h] at hx; rw [hx] at o3; omega⟩
     · exact Or.inl ⟨by rw [hes]; simp [h], fun hx => by have := (o5 e h).1; rw [hx] at this; omega⟩
-  refine ⟨⟨w', hi.recs.preserved ha.kept, ?_, ?_⟩, ?_⟩
+  refine ⟨⟨w', hi.recs.preserved ha.kept, ?_, ?_, ?_⟩, ?_⟩
   · -- `FenceOk`
     rw [sg_fenceOk_iff_tab w'.ents]
     have hold := (sg_fenceOk_iff_tab w.ents).1 hi.fence
@@ -307,6 +307,12 @@ theorem sg_top_split {s : St} (hi : SInv s) {nb : Nat} (hnb16 : nb % 16 = 0) (hn
       have : inSeg g e = true := by rw [h, inSeg_iff]; simp only; omega
       have := sg_seg_unique w.segsDisjoint hg hg' this hge
       subst this; exact hrec hg0
+  · -- `HeadOk`
+    intro g' hg' e he hb h8
+    rcases hmem e he with h | h | h
+    · exact hi.head g' hg' e h.1 hb h8
+    · rw [h] at h8; simp only at h8; omega
+    · rw [h] at h8; simp only at h8; omega
   · refine sg_alloc_of_allocAt w hi.recs ?_ ?_ ?_
     · rfl
     · exact ha
@@ -321,7 +327,7 @@ theorem sg_sinv_same {s s' : St} (hi : SInv s) (hh : SameHeap s'.h s.h) (hsegs :
   have w := hi.wfs
   obtain ⟨h1, h2, h3, h4, h5, h6, h7⟩ := hh
   have hfl : Dl.freeList s'.h = Dl.freeList s.h := by unfold Dl.freeList binned; rw [h2, h3, h4, h6]
-  refine ⟨⟨?_, ?_, ?_, ?_, ?_, ?_, ?_, ?_, ?_, ?_, ?_⟩, ?_, ?_, ?_⟩
+  refine ⟨⟨?_, ?_, ?_, ?_, ?_, ?_, ?_, ?_, ?_, ?_, ?_⟩, ?_, ?_, ?_, ?_⟩
   · rw [h1]; exact w.ents
   · rw [h1]; exact w.shape
   · rw [h1, hsegs]; exact w.inSegs
@@ -350,6 +356,10 @@ theorem sg_sinv_same {s s' : St} (hi : SInv s) (hh : SameHeap s'.h s.h) (hsegs :
     rw [hsegs] at hg ⊢
     rw [h1] at he
     exact hi.tail g hg hne e he
+  · intro g hg e he
+    rw [hsegs] at hg
+    rw [h1] at he
+    exact hi.head g hg e he
 
 theorem sg_sinv_tag {s : St} (hi : SInv s) (t : String) : SInv (s.tag t) :=
   sg_sinv_same hi ⟨rfl, rfl, rfl, rfl, rfl, rfl, rfl⟩ rfl rfl (fun _ => rfl)
@@ -372,5 +382,402 @@ theorem sg_init_top_ok {s s' : St} {ptr size : Nat} (h : init_top s ptr size = .
   msimp at h
   obtain ⟨_, _, h1, e1, h2, e2, h⟩ := h
   exact ⟨h1, h2, e1, e2, h.symm⟩
+
+/-! ## 4. the header table and the segment list -/
+
+/-- no header of a well-formed state lies in a region disjoint from all its segments -/
+theorem sg_fresh_ents {s : St} (w : WFS s) {tbase tsize : Nat}
+    (hf : ∀ g ∈ s.segs, tbase + tsize ≤ g.base ∨ g.base + g.size ≤ tbase) :
+    ∀ e ∈ s.h.ents, e.addr + e.size ≤ tbase ∨ tbase + tsize ≤ e.addr := by
+  intro e he
+  obtain ⟨g, hg, hge⟩ := w.struct.seg_of he
+  have := w.struct.in_seg hg he hge
+  rcases hf g hg with h | h
+  · right; omega
+  · left; omega
+
+/-- `tiles` below a prefix, with the segment end moving -/
+theorem sg_tiles_prefix_end (l1 : List Ent) {m m' : Ent} {r r' : List Ent} {e e' : Nat}
+    (h8 : 8 ≤ m.size → 8 ≤ m'.size)
+    (hr : ∀ a, tiles (m :: r) a e = true → tiles (m' :: r') a e' = true) :
+    ∀ a, tiles (l1 ++ m :: r) a e = true → tiles (l1 ++ m' :: r') a e' = true := by
+  induction l1 with
+  | nil => exact hr
+  | cons x xs ih =>
+    intro a h
+    cases xs with
+    | nil =>
+      simp only [List.cons_append, List.nil_append, tiles, Bool.and_eq_true, decide_eq_true_eq] at h ⊢
+      exact ⟨⟨h.1.1, h8 h.1.2⟩, hr _ h.2⟩
+    | cons z zs =>
+      simp only [List.cons_append, tiles, Bool.and_eq_true, decide_eq_true_eq] at h ⊢
+      exact ⟨h.1, ih _ h.2⟩
+
+theorem sg_segEnts_congr {l : List Ent} {g g' : Seg} (h : ∀ e ∈ l, inSeg g' e = inSeg g e) :
+    segEnts l g' = segEnts l g := by
+  unfold segEnts
+  exact List.filter_congr h
+
+/-- `isRecord` only reads the record addresses -/
+theorem sg_isRecord_congr {segs segs' : List Seg} (h : segs'.map (·.recAt) = segs.map (·.recAt)) (e : Ent) :
+    isRecord segs' e = isRecord segs e := by
+  have : ∀ l : List Seg, isRecord l e = (l.map (·.recAt)).any (fun r => decide (r = e.addr + 16)) := by
+    intro l; unfold isRecord; rw [List.any_map]; rfl
+  rw [this, this, h]
+
+theorem sg_segsOk_cons {s : St} {g : Seg} {rest : List Seg} (hs : segsOk s = true) (hsegs : s.segs = g :: rest) :
+    (∀ x ∈ rest, g.base + g.size ≤ x.base ∨ x.base + x.size ≤ g.base) ∧ segsDisjoint rest = true ∧
+    ∀ x ∈ g :: rest, x.base % 4096 = 0 ∧ x.size % 4096 = 0 ∧ 0 < x.base ∧ 80 < x.size ∧ s.least_addr ≤ x.base ∧
+      x.base + x.size ≤ 2 ^ 64 := by
+  unfold segsOk at hs
+  rw [hsegs] at hs
+  simp only [segsDisjoint, Bool.and_eq_true, List.all_eq_true, Bool.or_eq_true, decide_eq_true_eq,
+    top_foot_size_eq] at hs
+  refine ⟨hs.1.1, hs.1.2, ?_⟩
+  intro x hx
+  have := hs.2 x hx
+  omega
+
+theorem sg_segsOk_of {s : St} {g : Seg} {rest : List Seg} (hsegs : s.segs = g :: rest)
+    (h1 : ∀ x ∈ rest, g.base + g.size ≤ x.base ∨ x.base + x.size ≤ g.base) (h2 : segsDisjoint rest = true)
+    (h3 : ∀ x ∈ g :: rest, x.base % 4096 = 0 ∧ x.size % 4096 = 0 ∧ 0 < x.base ∧ 80 < x.size ∧ s.least_addr ≤ x.base ∧
+      x.base + x.size ≤ 2 ^ 64) : segsOk s = true := by
+  unfold segsOk
+  rw [hsegs]
+  simp only [segsDisjoint, Bool.and_eq_true, List.all_eq_true, Bool.or_eq_true, decide_eq_true_eq,
+    top_foot_size_eq]
+  refine ⟨⟨h1, h2⟩, ?_⟩
+  intro x hx
+  have := h3 x hx
+  omega
+
+/-- **the head segment reshaped at its end** (`sys-extend`: the segment grows by a fresh mapping; `trim_top`:
+it shrinks): the window `[top, foot]` becomes `[top', foot']` with the same `top` address, the head segment
+gets the size `newsize`, everything else is unchanged. -/
+theorem sg_retop {s s' : St} (hi : SInv s)
+    {g0 : Seg} {rest : List Seg} {pre post : List Ent} {x f x' f' : Ent} {n newsize : Nat}
+    (hsegs : s.segs = g0 :: rest) (hes : s.h.ents = pre ++ [x, f] ++ post)
+    (hxa : x.addr = s.h.top) (hxf : isFree x = true) (hxs : x.size = s.h.topsize)
+    (hfa : f.addr = s.h.top + s.h.topsize) (hfc : f.cin = false) (hfp : f.pin = false) (hfs : f.size = 80)
+    (hgb : g0.base ≤ s.h.top) (hgt : s.h.top + s.h.topsize + 80 = g0.base + g0.size)
+    (hents' : s'.h.ents = pre ++ [x', f'] ++ post)
+    (x1 : x'.addr = s.h.top) (x2 : x'.size = n) (x3 : x'.cin = false) (x4 : x'.pin = true)
+    (f1 : f'.addr = s.h.top + n) (f2 : f'.size = 80) (f3 : f'.cin = false) (f4 : f'.pin = false)
+    (hsegs' : s'.segs = { g0 with size := newsize } :: rest)
+    (hn16 : n % 16 = 0) (hn : 16 ≤ n) (hend : s.h.top + n + 80 = g0.base + newsize)
+    (hns : newsize % 4096 = 0) (hlim : g0.base + newsize ≤ 2 ^ 64)
+    (hdisj : ∀ g ∈ rest, g0.base + newsize ≤ g.base ∨ g.base + g.size ≤ g0.base)
+    (hpost : ∀ q ∈ post, g0.base + newsize ≤ q.addr)
+    (hsb : s'.h.sbins = s.h.sbins) (htb : s'.h.tbins = s.h.tbins) (hdv : s'.h.dv = s.h.dv)
+    (hdvs : s'.h.dvsize = s.h.dvsize) (htop : s'.h.top = s.h.top) (htops : s'.h.topsize = n)
+    (hla : s'.least_addr = s.least_addr) :
+    SInv s' ∧ SameUsers s s' := by
+  have w := hi.wfs
+  have hho := hi.head
+  have hg0 : g0 ∈ s.segs := by rw [hsegs]; exact List.mem_cons_self
+  have hrestm : ∀ g ∈ rest, g ∈ s.segs := fun g hg => by rw [hsegs]; exact List.mem_cons_of_mem _ hg
+  obtain ⟨d1, d2, d3⟩ := sg_segsOk_cons w.segs hsegs
+  have hxm : x ∈ s.h.ents := by rw [hes]; simp
+  have hfm : f ∈ s.h.ents := by rw [hes]; simp
+  obtain ⟨hxc, hxp⟩ := isFree_iff.1 hxf
+  have htop16 : s.h.top % 16 = 0 := by rw [← hxa]; exact (shapeOk_free w.shape hxm hxc).1
+  have hok := w.ents
+  rw [hes] at hok
+  have hok2 : entsOk (pre ++ x :: f :: post) = true := by simpa using hok
+  obtain ⟨o1, o2, o3, o4, o5⟩ := entsOk_mid2 hok2
+  have hrec0 : g0.recAt = 0 := by
+    have ht := w.top
+    unfold topOk at ht
+    simp only [hsegs, Bool.and_eq_true, decide_eq_true_eq] at ht
+    exact ht.1.1.2
+  have htop0 : s.h.top ≠ 0 := by
+    have ht := w.top
+    unfold topOk at ht
+    simp only [hsegs, Bool.and_eq_true, decide_eq_true_eq] at ht
+    exact ht.1.1.1.1.1.1
+  have hgx : inSeg g0 x = true := by rw [inSeg_iff]; omega
+  have hgf : inSeg g0 f = true := by rw [inSeg_iff]; omega
+  have hffree : isFree f = false := by simp [isFree, hfp]
+  have hf'free : isFree f' = false := by simp [isFree, f4]
+  -- the rest of the table relative to the head segment
+  have hpre_in : ∀ e ∈ pre, inSeg { g0 with size := newsize } e = inSeg g0 e := by
+    intro e he
+    have := o1 e he
+    cases h1 : inSeg g0 e with
+    | true => rw [inSeg_iff] at h1 ⊢; simp only; omega
+    | false =>
+      cases h2 : inSeg { g0 with size := newsize } e with
+      | false => rfl
+      | true =>
+        exfalso
+        rw [inSeg_iff] at h2; simp only at h2
+        have : inSeg g0 e = true := by rw [inSeg_iff]; omega
+        rw [h1] at this; cases this
+  have hpost_out : ∀ e ∈ post, inSeg g0 e = false := by
+    intro e he
+    have := o5 e he
+    cases h1 : inSeg g0 e with
+    | false => rfl
+    | true => rw [inSeg_iff] at h1; omega
+  have hpost_out' : ∀ e ∈ post, inSeg { g0 with size := newsize } e = false := by
+    intro e he
+    have := hpost e he
+    cases h1 : inSeg { g0 with size := newsize } e with
+    | false => rfl
+    | true => rw [inSeg_iff] at h1; simp only at h1; omega
+  have hmid_in' : ∀ e ∈ [x', f'], inSeg { g0 with size := newsize } e = true := by
+    intro e he
+    simp only [List.mem_cons, List.not_mem_nil, or_false] at he
+    rcases he with rfl | rfl <;> (rw [inSeg_iff]; simp only; omega)
+  have hmid_in : ∀ e ∈ [x, f], inSeg g0 e = true := by
+    intro e he
+    simp only [List.mem_cons, List.not_mem_nil, or_false] at he
+    rcases he with rfl | rfl <;> assumption
+  have hmid_rest : ∀ g ∈ rest, ∀ e ∈ [x, f], inSeg g e = false := by
+    intro g hg e he
+    exact inSeg_false_of_disjoint (hmid_in e he) (d1 g hg)
+  have hmid_rest' : ∀ g ∈ rest, ∀ e ∈ [x', f'], inSeg g e = false := by
+    intro g hg e he
+    refine inSeg_false_of_disjoint (g := { g0 with size := newsize }) (hmid_in' e he) ?_
+    exact hdisj g hg
+  have hseg0 : segEnts s.h.ents g0 = segEnts pre g0 ++ [x, f] := by
+    rw [hes, segEnts_window hmid_in, segEnts_none hpost_out, List.append_nil]
+  have hseg0' : segEnts s'.h.ents { g0 with size := newsize } = segEnts pre g0 ++ [x', f'] := by
+    rw [hents', segEnts_window hmid_in', segEnts_none hpost_out', List.append_nil, sg_segEnts_congr hpre_in]
+  have hsegr : ∀ g ∈ rest, segEnts s'.h.ents g = segEnts s.h.ents g := by
+    intro g hg
+    rw [hents', hes, segEnts_window_other (hmid_rest' g hg), segEnts_window_other (hmid_rest g hg)]
+  -- sortedness of the new table
+  have hok' : entsOk s'.h.ents = true := by
+    rw [hents']
+    refine entsOk_window hok (lo := s.h.top) (hi := g0.base + newsize) ?_ hpost ?_ ?_
+    · intro p hp; have := o1 p hp; omega
+    · simp only [entsOk, Bool.and_eq_true, decide_eq_true_eq]; omega
+    · intro e he
+      simp only [List.mem_cons, List.not_mem_nil, or_false] at he
+      rcases he with rfl | rfl <;> omega
+  have hx'm : x' ∈ s'.h.ents := by rw [hents']; simp
+  have hf'm : f' ∈ s'.h.ents := by rw [hents']; simp
+  have hmem' : ∀ e ∈ s'.h.ents, (e ∈ s.h.ents ∧ (e ∈ pre ∨ e ∈ post)) ∨ e = x' ∨ e = f' := by
+    intro e he
+    rw [hents'] at he
+    simp only [List.mem_append, List.mem_cons, List.not_mem_nil, or_false] at he
+    rcases he with (h | h | h) | h
+    · exact Or.inl ⟨by rw [hes]; simp [h], Or.inl h⟩
+    · exact Or.inr (Or.inl h)
+    · exact Or.inr (Or.inr h)
+    · exact Or.inl ⟨by rw [hes]; simp [h], Or.inr h⟩
+  have hold_mem : ∀ e, e ∈ pre ∨ e ∈ post → e ∈ s'.h.ents := by
+    intro e he
+    rw [hents']
+    rcases he with h | h <;> simp [h]
+  have hrecs : s'.segs.map (·.recAt) = s.segs.map (·.recAt) := by rw [hsegs', hsegs]; rfl
+  have hfl : Dl.freeList s'.h = Dl.freeList s.h := by unfold Dl.freeList binned; rw [htop, hdv, hsb, htb]
+  have hfreemid : ∀ e ∈ [x, f], isFree e = true → e.addr = s.h.top ∨ e.addr = s.h.dv := by
+    intro e he hf
+    simp only [List.mem_cons, List.not_mem_nil, or_false] at he
+    rcases he with rfl | rfl
+    · exact Or.inl hxa
+    · rw [hffree] at hf; cases hf
+  have hbins := bins_window w hes hents' hok' hsb htb hfreemid
+  refine ⟨⟨⟨hok', ?_, ?_, ?_, ?_, ?_, hbins.1, hbins.2, ?_, ?_, ?_⟩, ?_, ?_, ?_, ?_⟩, ?_⟩
+  · -- shapeOk
+    rw [hents']
+    have := w.shape
+    rw [hes] at this
+    refine shapeOk_window this ?_
+    simp only [shapeOk, List.all_cons, List.all_nil, Bool.and_true, Bool.and_eq_true, Bool.or_eq_true,
+      decide_eq_true_eq]
+    exact ⟨Or.inr ⟨⟨by omega, by omega⟩, by omega⟩, Or.inr ⟨⟨by omega, by omega⟩, by omega⟩⟩
+  · -- allInSegs
+    simp only [List.all_eq_true, List.any_eq_true]
+    intro e he
+    rw [hsegs']
+    rcases hmem' e he with ⟨h0, h⟩ | h | h
+    · obtain ⟨g, hg, hge⟩ := w.struct.seg_of h0
+      rw [hsegs] at hg
+      rcases List.mem_cons.1 hg with hg | hg
+      · subst hg
+        rcases h with h | h
+        · exact ⟨_, List.mem_cons_self, by rw [hpre_in e h]; exact hge⟩
+        · rw [hpost_out e h] at hge; cases hge
+      · exact ⟨g, List.mem_cons_of_mem _ hg, hge⟩
+    · exact ⟨_, List.mem_cons_self, hmid_in' e (by simp [h])⟩
+    · exact ⟨_, List.mem_cons_self, hmid_in' e (by simp [h])⟩
+  · -- tiles
+    rw [hsegs']
+    simp only [List.all_cons, Bool.and_eq_true, List.all_eq_true]
+    constructor
+    · rw [hseg0']
+      have ht := w.struct.tiles_of hg0
+      rw [hseg0] at ht
+      refine sg_tiles_prefix_end (segEnts pre g0) (m := x) (r := [f]) (m' := x') (r' := [f']) (by omega) ?_ _ ht
+      intro a h
+      simp only [tiles, isTrailerEnd, Bool.and_eq_true, Bool.or_eq_true, decide_eq_true_eq] at h ⊢
+      rw [f3, f4]
+      refine ⟨⟨by omega, by omega⟩, ⟨by omega, Or.inl (by omega)⟩, Or.inl (by simp)⟩
+    · intro g hg
+      rw [hsegr g hg]
+      exact w.struct.tiles_of (hrestm g hg)
+  · -- tagsOk
+    rw [hsegs', htop]
+    simp only [List.all_cons, Bool.and_eq_true, List.all_eq_true]
+    constructor
+    · rw [hseg0']
+      have ht := w.struct.tags_of hg0
+      rw [hseg0] at ht
+      have := tagsOk_window (top := s.h.top) (top' := s.h.top) (pc := true) (l1 := segEnts pre g0) (l2 := [])
+        (m := x) (ms := [f]) (m' := x') (ms' := [f']) (by simpa using ht) (fun _ _ => Iff.rfl) (fun _ _ => Iff.rfl)
+        ⟨by rw [x4, hxp], fun h => by rw [hxp] at h; cases h⟩
+        ⟨by simp only [lastE]; rw [f3, hfc], fun hf => by simp only [lastE] at hf; rw [hf'free] at hf; cases hf⟩
+        (by simp [tagsFrom, linkOk, isFree, x1, x3, x4, f3, f4])
+      simpa using this
+    · intro g hg
+      rw [hsegr g hg]
+      exact w.struct.tags_of (hrestm g hg)
+  · -- freeListOk
+    have hnd := ((freeListOk_iff s.h).1 w.freeList).1
+    refine freeListOk_window hes hents' w.ents hok' w.freeList (by rw [hfl]; exact hnd) ?_
+    intro a
+    have fs1 : freeSet [x, f] = [s.h.top] := by simp [freeSet, List.filter, hxf, hffree, hxa]
+    have fs2 : freeSet [x', f'] = [s.h.top] := by simp [freeSet, List.filter, isFree, x3, x4, f4, x1]
+    rw [hfl, fs1, fs2]
+    have htm : s.h.top ∈ Dl.freeList s.h := by rw [freeList_top htop0]; simp
+    simp only [List.mem_singleton]
+    constructor
+    · intro h
+      by_cases hat : a = s.h.top
+      · exact Or.inr hat
+      · exact Or.inl ⟨h, hat⟩
+    · rintro (⟨h, _⟩ | h)
+      · exact h
+      · rw [h]; exact htm
+  · -- dvOk
+    refine dvOk_window w hes hents' hok' hdv hdvs ?_
+    intro e he hf
+    simp only [List.mem_cons, List.not_mem_nil, or_false] at he
+    rcases he with rfl | rfl
+    · rw [hxa]; exact fun h => w.dv_ne_top htop0 h.symm
+    · rw [hffree] at hf; cases hf
+  · -- topOk
+    unfold topOk
+    rw [hsegs', htop, htops]
+    have e1 := entsOk_find x' hx'm hok'
+    have e2 := entsOk_find f' hf'm hok'
+    rw [x1] at e1
+    rw [f1] at e2
+    simp only [e1, e2, isFree, x2, x3, x4, f2, f3, f4, top_foot_size_eq, Bool.and_eq_true, decide_eq_true_eq]
+    sg_omega
+  · -- segsOk
+    refine sg_segsOk_of hsegs' hdisj d2 ?_
+    intro g hg
+    rcases List.mem_cons.1 hg with hg | hg
+    · subst hg
+      have := d3 g0 List.mem_cons_self
+      simp only
+      rw [hla]
+      omega
+    · have := d3 g (List.mem_cons_of_mem _ hg)
+      rw [hla]; exact this
+  · -- RecsOk
+    intro g hg hne
+    rw [hsegs'] at hg
+    rcases List.mem_cons.1 hg with hg | hg
+    · subst hg; exact absurd hrec0 hne
+    · obtain ⟨h16, e, he, hc⟩ := hi.recs g (hrestm g hg) hne
+      obtain ⟨hm, ha⟩ := findEnt_some he
+      refine ⟨h16, e, ?_, hc⟩
+      rw [← ha]
+      refine entsOk_find e (hold_mem e ?_) hok'
+      rw [hes] at hm
+      simp only [List.mem_append, List.mem_cons, List.not_mem_nil, or_false] at hm
+      rcases hm with (h | h | h) | h
+      · exact Or.inl h
+      · subst h; rw [hxc] at hc; cases hc
+      · subst h; rw [hfc] at hc; cases hc
+      · exact Or.inr h
+  · -- FenceOk
+    rw [sg_fenceOk_iff_tab hok']
+    have hold := (sg_fenceOk_iff_tab w.ents).1 hi.fence
+    intro a ha b hb h8 hadj
+    have hb0 : b ∈ s.h.ents ∧ (b ∈ pre ∨ b ∈ post) := by
+      rcases hmem' b hb with h | h | h
+      · exact h
+      · rw [h, x2] at h8; omega
+      · rw [h, f2] at h8; omega
+    rcases hmem' a ha with h | h | h
+    · rw [sg_isRecord_congr hrecs]
+      exact hold a h.1 b hb0.1 h8 hadj
+    · exfalso
+      rw [h, x1, x2] at hadj
+      have := entsOk_addr_inj hok' hb hf'm (by omega)
+      rw [this, f2] at h8; omega
+    · exfalso
+      rw [h, f1, f2] at hadj
+      -- a fencepost right after the new foot word would be the first header of a segment
+      rcases hb0.2 with hbp | hbp
+      · have := o1 b hbp; omega
+      · obtain ⟨g, hg, hge⟩ := w.struct.seg_of hb0.1
+        rw [hsegs] at hg
+        rcases List.mem_cons.1 hg with hg | hg
+        · subst hg; rw [hpost_out b hbp] at hge; cases hge
+        · rw [inSeg_iff] at hge
+          have hbase : b.addr = g.base := by
+            rcases hdisj g hg with h1 | h1 <;> omega
+          exact hho g (hrestm g hg) b hb0.1 hbase h8
+  · -- TailOk
+    intro g hg hne e he hge
+    rw [hsegs'] at hg
+    rcases List.mem_cons.1 hg with hg | hg
+    · subst hg; exact absurd hrec0 hne
+    · rw [sg_isRecord_congr hrecs]
+      rcases hmem' e he with h | h | h
+      · exact hi.tail g (hrestm g hg) hne e h.1 hge
+      · rw [hmid_rest' g hg e (by simp [h])] at hge; cases hge
+      · rw [hmid_rest' g hg e (by simp [h])] at hge; cases hge
+  · -- HeadOk
+    intro g hg e he hb
+    rw [hsegs'] at hg
+    have hg' : ∃ g1 ∈ s.segs, g1.base = g.base := by
+      rcases List.mem_cons.1 hg with hg | hg
+      · exact ⟨g0, hg0, by rw [hg]⟩
+      · exact ⟨g, hrestm g hg, rfl⟩
+    obtain ⟨g1, hg1, hb1⟩ := hg'
+    rcases hmem' e he with h | h | h
+    · exact hho g1 hg1 e h.1 (by omega)
+    · rw [h, x2]; omega
+    · rw [h, f2]; omega
+  · -- SameUsers
+    intro a z
+    rw [sg_user_iff_mem hok', sg_user_iff_mem w.ents]
+    constructor
+    · rintro ⟨e, he, h1, h2, h3, h4, h5⟩
+      rcases hmem' e he with h | h | h
+      · exact ⟨e, h.1, h1, h2, h3, h4, by rw [← sg_isRecord_congr hrecs]; exact h5⟩
+      · rw [h, x3] at h2; cases h2
+      · rw [h, f3] at h2; cases h2
+    · rintro ⟨e, he, h1, h2, h3, h4, h5⟩
+      refine ⟨e, hold_mem e ?_, h1, h2, h3, h4, by rw [sg_isRecord_congr hrecs]; exact h5⟩
+      rw [hes] at he
+      simp only [List.mem_append, List.mem_cons, List.not_mem_nil, or_false] at he
+      rcases he with (h | h | h) | h
+      · exact Or.inl h
+      · subst h; rw [hxc] at h2; cases h2
+      · subst h; rw [hfc] at h2; cases h2
+      · exact Or.inr h
+
+theorem sg_headOk_same {s s' : St} (hh : HeadOk s) (he : s'.h.ents = s.h.ents) (hs : s'.segs = s.segs) : HeadOk s' := by
+  intro g hg e hem
+  rw [hs] at hg; rw [he] at hem
+  exact hh g hg e hem
+
+/-- a table all of whose fenceposts are old fenceposts (same address), under a segment list with the same
+bases: `HeadOk` carries over -/
+theorem sg_headOk_of_old {s s' : St} (hh : HeadOk s) (hs : ∀ g ∈ s'.segs, ∃ g1 ∈ s.segs, g1.base = g.base)
+    (h1 : ∀ y' ∈ s'.h.ents, y'.size = 8 → ∃ y ∈ s.h.ents, y.addr = y'.addr ∧ y.size = 8) : HeadOk s' := by
+  intro g hg e he hb h8
+  obtain ⟨g1, hg1, hb1⟩ := hs g hg
+  obtain ⟨y, hy, hya, hy8⟩ := h1 e he h8
+  exact hh g1 hg1 y hy (by omega) hy8
 
 end TinyVerif.Dl
